@@ -224,15 +224,33 @@ func getImageWithImports(
 	nonImportPaths map[string]struct{},
 	nonImportImageFiles []ImageFile,
 ) (Image, error) {
+	// First find the files we need: the non-imports and everything they import.
+	var neededImageFiles []ImageFile
+	neededPaths := make(map[string]struct{})
+	for _, nonImportImageFile := range nonImportImageFiles {
+		neededImageFiles = addFileWithImports(
+			neededImageFiles,
+			image,
+			nonImportPaths,
+			neededPaths,
+			nonImportImageFile,
+		)
+	}
+	// Then add them in the order of the given Image, imports first. The order of
+	// nonImportImageFiles is the order the paths were given in by the caller, and
+	// the same set of paths must always result in the same Image.
 	var imageFiles []ImageFile
 	seenPaths := make(map[string]struct{})
-	for _, nonImportImageFile := range nonImportImageFiles {
+	for _, imageFile := range image.Files() {
+		if _, ok := neededPaths[imageFile.Path()]; !ok {
+			continue
+		}
 		imageFiles = addFileWithImports(
 			imageFiles,
 			image,
 			nonImportPaths,
 			seenPaths,
-			nonImportImageFile,
+			imageFile,
 		)
 	}
 	return NewImage(imageFiles)
